@@ -659,12 +659,16 @@ def run_case(case, repo_checks=True):
                     R.sem_state = semaphore_state(R)
 
     R.bw_sleeps = sched.sleep_log
+    lp = detsched.LinePreempter(sched, case.get('lines') or [],
+                                count=bool(case.get('count_lines')))
     with patched(sched, case.get('adj'), case.get('agg'),
                  case.get('bw_threshold')):
-        try:
-            sched.run(main)
-        except HarnessError as e:
-            R.harness_error = e
+        with lp:
+            try:
+                sched.run(main)
+            except HarnessError as e:
+                R.harness_error = e
+    R.nlines = lp.n
     for name, e in sched.errors:
         if not isinstance(e, (SchedAbort,)):
             R.harness_error = R.harness_error or HarnessError(
